@@ -49,6 +49,8 @@ def strategy(tier):
         "filelink": st.sampled_from([None, None, "top", "sub"]),
         # auto-exclusion of directories without CMake files off (never together with an output directory inside the tree)
         "auto_off": st.sampled_from([False, False, True]),
+        # one page far larger than a pipe buffer, holding a single line of more than 64 KiB
+        "huge": st.sampled_from([False, False, False, True]),
     })
 
 
@@ -91,6 +93,11 @@ def evaluate(case):
             # the "nothing but the pages on stdout" clause is conditional on no diagnostics, the file-system clauses are not
             with open(os.path.join(inp, "zz_diag.cmake"), "w") as f:
                 f.write("ct_add_test(NAME)\ncpp_class()\nfunction(ok_diag)\nendfunction()\n#[[[\n# dangling at EOF\n#]]\n")
+        if case.get("huge") and not lone:
+            with open(os.path.join(inp, "zz_huge.cmake"), "w") as f:
+                f.write("#[[[\n# " + "very long line " * 4700 + "\n# Second line.\n#]]\nfunction(huge_fn a)\nendfunction()\n"
+                        + "".join(f"#[[[\n# Filler {i}.\n#]]\nset(FILL_{i} {i})\n" for i in range(40)))
+            res.labels.append("page-larger-than-64KiB")
         link_dir = None
         if case.get("filelink") and not lone:
             os.makedirs(sb.path("else", "shared"))
@@ -108,7 +115,8 @@ def evaluate(case):
         if lone and outloc.startswith("nested"):
             outloc = "abs"
         if outloc == "abs":
-            out_arg = out_abs = sb.path("out")
+            # decomposed characters in the requested output path (it must be used as spelled)
+            out_arg = out_abs = sb.path("out") if len(top_files) % 2 else sb.path("re\u0301fe\u0301rence", "out")
         elif outloc == "rel":
             out_arg, out_abs = "rel/o ut", os.path.join(cwd, "rel/o ut")
         elif outloc == "nested-fresh":
@@ -229,6 +237,7 @@ def evaluate(case):
                     continue
                 # sorted by source file name; page names are stems, compare via the source names
                 src_names = sorted([n for n in (S.subtree(tree, d)["files"] if not lone else {top_files[0]: 1}) if T.is_cmake(n)] +
+                                   (["zz_huge.cmake"] if case.get("huge") and not lone and d == "" else []) +
                                    (["zz_link.cmake"] if link_dir is not None and d == link_dir else []))
                 want = [T.stem_of(n) + ".rst" for n in src_names if T.stem_of(n) + ".rst" in names]
                 if names != want:
